@@ -38,6 +38,14 @@ def run_case(c):
             cwd = os.path.join(tmp, "elsewhere")
             os.makedirs(cwd)
         p = subprocess.run(args, capture_output=True, text=True, env=env, cwd=cwd, timeout=300)
+        if c.get("regenerate") and p.returncode == 0 and os.path.isdir(out):
+            # a generation HISTORY at the level of the output directory: the directory now holds the files of an earlier
+            # run; make them longer (as an earlier, larger revision of the network would have left them) and different,
+            # then generate again into the same directory
+            for fn in sorted(os.listdir(out)):
+                with open(os.path.join(out, fn), "a") as f:
+                    f.write("// left behind by an earlier, larger revision\n" * 40)
+            p = subprocess.run(args, capture_output=True, text=True, env=env, cwd=cwd, timeout=300)
         files = {}
         if os.path.isdir(out):
             for fn in sorted(os.listdir(out)):
